@@ -132,7 +132,7 @@ pub fn search() -> Option<String> {
         rng ^= rng << 17;
         (rng % m as u64) as usize
     };
-    for _ in 0..30000 {
+    for _ in 0..(if crate::thorough() { 400000 } else { 30000 }) {
         let n = 1 + next(5);
         let text: String = (0..n).map(|_| TEXT_ALPHA[next(TEXT_ALPHA.len())]).collect();
         let labels: Vec<B> = (0..n - 1).map(|_| if next(2) == 0 { B::WordBoundary } else { B::NotWordBoundary }).collect();
